@@ -2625,6 +2625,24 @@ package gomatrixserverlib
 //@   loop 1: invariant mainline-positions-are-only-read: forall id string :: ((id in r.powerLevelMainlinePos) <==> old(id in r.powerLevelMainlinePos)) && r.powerLevelMainlinePos[id] == old(r.powerLevelMainlinePos[id])
 //@   assigns r.powerLevelMainlinePos[*]
 
+// The power-level mainline is built oldest-first: walking back from the resolved power-levels event, every event is
+// put IN FRONT of what has been collected so far (so the room's first power-levels event gets position 0 and the
+// resolved one the last position - the positions mainline ordering compares).
+//@ func (*stateResolverV2).createPowerLevelMainline$1
+//@   property C10, C11
+//@   nosafety
+//@   selfcallback
+//@   zerooffsets
+//@   requires r != nil
+//@   ensures grows: len(post_mainline) >= len(mainline) + 1
+//@   ensures this-event-goes-right-in-front-of-what-was-there: post_mainline[len(post_mainline) - len(mainline) - 1] == event
+//@   ensures what-was-there-stays-at-the-end: forall i int :: { post_mainline[i] } (len(post_mainline) - len(mainline) <= i && i < len(post_mainline)) ==> post_mainline[i] == old(mainline[i - (len(post_mainline) - len(mainline))])
+//@   assigns nothing
+//@   loop 1: invariant 0 <= idx(1) && idx(1) <= len(event.AuthEventIDs())
+//@   loop 1: invariant grows: len(mainline) >= old(len(mainline)) + 1
+//@   loop 1: invariant this-event-stays-right-in-front-of-what-was-there: mainline[len(mainline) - old(len(mainline)) - 1] == event
+//@   loop 1: invariant what-was-there-stays-at-the-end: forall i int :: { mainline[i] } (len(mainline) - old(len(mainline)) <= i && i < len(mainline)) ==> mainline[i] == old(mainline)[i - (len(mainline) - old(len(mainline)))]
+
 // The auth difference of v2 / v2.1: the union of the full auth chains of ALL state sets minus the intersection of
 // ALL of them (the running intersection is what is intersected further, starting from the first chain). The sets
 // library is not entered: what is pinned is which set every operation is applied to, for every number of state sets.
